@@ -23,6 +23,10 @@ pub struct Spec {
     hostile: usize,
     /// the well-behaved client performs a full login
     login: bool,
+    /// instead of hostile clients that are held open: so many short-lived connections one after the other, each
+    /// ending on one of the listener's early exits (`stall` names the kind), before the well-behaved client comes
+    #[serde(default)]
+    churn: usize,
 }
 
 fn stalls(proxy: bool) -> Vec<&'static str> {
@@ -85,8 +89,79 @@ async fn hostile(server: SocketAddr, proxy: bool, stall: &str, n: usize) -> Opti
     Some(c)
 }
 
+/// A long series of short-lived connections, one after the other, none of which is held open; then the
+/// well-behaved client. Whatever each of them cost the listener must have been given back.
+fn run_churn(spec: &Spec) -> (Duration, bool, String, bool) {
+    run_local(async {
+        let adapters = NetAdapters::new();
+        let cfg = ListenerCfg { proxy: spec.proxy.then_some((true, true)), limiter: spec.limiter.then_some((3600, 2)), timeout: Duration::from_secs(20), auth_secret: None };
+        let running = start_listener(&cfg, adapters).await;
+        let mut ok = true;
+        for i in 0..spec.churn {
+            let Ok(mut c) = McClient::connect(running.addr, Some("127.0.0.2".parse().unwrap())).await else {
+                ok = false;
+                break;
+            };
+            match spec.stall.as_str() {
+                // no PROXY header where one is required: closed unserved
+                "churn-no-proxy-header" => {
+                    let _ = c.send_raw(b"GET / HTTP/1.1\r\nHost: example\r\n\r\n").await;
+                    if matches!(c.wait_closed(Duration::from_secs(2)).await, Err(ReadErr::Timeout)) {
+                        // the listener no longer even turns such a connection away: no point in sending more of them
+                        break;
+                    }
+                }
+                // the same source again and again: refused by the limiter after the first two
+                "churn-rate-limited" => {
+                    if spec.proxy {
+                        let _ = c.send_raw(&proxy_v1("198.51.100.200:4000".parse().unwrap(), running.addr)).await;
+                    }
+                    if matches!(c.status_exchange(Duration::from_millis(300)).await, Err(ReadErr::Timeout)) {
+                        break;
+                    }
+                }
+                // connects and hangs up at once
+                "churn-connect-close" => {}
+                // a complete, well-behaved status exchange from changing sources
+                _ => {
+                    if spec.proxy {
+                        let src: SocketAddr = format!("198.51.{}.{}:4000", 100 + i / 200, 20 + i % 200).parse().unwrap();
+                        let _ = c.send_raw(&proxy_v1(src, running.addr)).await;
+                    }
+                    if matches!(c.status_exchange(Duration::from_millis(500)).await, Err(ReadErr::Timeout)) {
+                        break;
+                    }
+                }
+            }
+            drop(c);
+        }
+        let t0 = Instant::now();
+        let good = async {
+            let peer = if spec.proxy { "127.0.0.2" } else { "127.0.0.3" };
+            let mut c = McClient::connect(running.addr, Some(peer.parse().unwrap())).await.map_err(|e| e.to_string())?;
+            if spec.proxy {
+                c.send_raw(&proxy_v2("203.0.113.77:7777".parse().unwrap(), running.addr)).await.map_err(|e| e.to_string())?;
+            }
+            c.status_exchange(BOUND).await.map(|_| ()).map_err(|e| format!("{e:?}"))
+        };
+        let r = tokio::time::timeout(BOUND, good).await;
+        let elapsed = t0.elapsed();
+        let (served, detail) = match r {
+            Ok(Ok(())) => (true, "served".to_string()),
+            Ok(Err(e)) => (false, e),
+            Err(_) => (false, "no reply within the bound".into()),
+        };
+        running.stop.cancel();
+        let _ = tokio::time::timeout(Duration::from_millis(500), running.done).await;
+        (elapsed, served, detail, ok)
+    })
+}
+
 /// (elapsed, served, detail)
 fn run_schedule(spec: &Spec) -> (Duration, bool, String, bool) {
+    if spec.churn > 0 {
+        return run_churn(spec);
+    }
     run_local(async {
         let mut adapters = NetAdapters::new();
         // a hostile client that reaches the configuration phase waits for routing forever: the backend never
@@ -157,9 +232,9 @@ pub fn run(cli: Cli) -> ! {
         for limiter in [false, true] {
             for stall in stalls(proxy) {
                 for hostile in if thorough { vec![1usize, 2, 9, 40] } else { vec![1usize, 2, 9] } {
-                    specs.push(Spec { proxy, limiter, stall: stall.into(), hostile, login: false });
+                    specs.push(Spec { proxy, limiter, stall: stall.into(), hostile, login: false, churn: 0 });
                     if thorough {
-                        specs.push(Spec { proxy, limiter, stall: stall.into(), hostile, login: true });
+                        specs.push(Spec { proxy, limiter, stall: stall.into(), hostile, login: true, churn: 0 });
                     }
                 }
             }
@@ -167,7 +242,7 @@ pub fn run(cli: Cli) -> ! {
     }
     if !thorough {
         for proxy in [false, true] {
-            specs.push(Spec { proxy, limiter: true, stall: "connected-silent".into(), hostile: 1, login: true });
+            specs.push(Spec { proxy, limiter: true, stall: "connected-silent".into(), hostile: 1, login: true, churn: 0 });
         }
     }
     // a crowd: hundreds (thorough: thousands) of connections held open at a cheap stall point; both ends of
@@ -188,9 +263,13 @@ pub fn run(cli: Cli) -> ! {
         }
         for stall in crowd_stalls {
             for hostile in if thorough { vec![300usize, 1100.min(crowd_cap), 3000.min(crowd_cap)] } else { vec![600usize.min(crowd_cap)] } {
-                crowds.push(Spec { proxy, limiter: false, stall: stall.into(), hostile, login: false });
+                crowds.push(Spec { proxy, limiter: false, stall: stall.into(), hostile, login: false, churn: 0 });
             }
         }
+    }
+    // churn: 1500 (thorough: 5000) short-lived connections one after the other that end on an early exit
+    for (proxy, limiter, kind) in [(true, false, "churn-no-proxy-header"), (false, true, "churn-rate-limited"), (true, true, "churn-rate-limited"), (false, false, "churn-connect-close"), (true, false, "churn-connect-close"), (false, false, "churn-status"), (true, false, "churn-status")] {
+        specs.push(Spec { proxy, limiter, stall: kind.into(), hostile: 0, login: false, churn: if thorough { 5000 } else { 1500 } });
     }
     let max_ms = AtomicU64::new(0);
     let served_n = AtomicU64::new(0);
@@ -203,10 +282,10 @@ pub fn run(cli: Cli) -> ! {
             served_n.fetch_add(1, Ordering::Relaxed);
             max_ms.fetch_max(el.as_millis() as u64, Ordering::Relaxed);
         } else {
-            let phase = if s.proxy && matches!(s.stall.as_str(), "connected-silent" | "inside-proxy-header-1-byte" | "inside-proxy-header-half" | "short-non-proxy-bytes") { "before-proxy-header-complete" } else { "after-admission" };
+            let phase = if s.churn > 0 { "after-churn" } else if s.proxy && matches!(s.stall.as_str(), "connected-silent" | "inside-proxy-header-1-byte" | "inside-proxy-header-half" | "short-non-proxy-bytes") { "before-proxy-header-complete" } else { "after-admission" };
             rep.violation(Violation {
                 key: format!("stalled={}:{phase}", s.stall),
-                text: format!("a well-behaved client was not served within {BOUND:?} while {} hostile client(s) stalled at '{}' (proxy protocol {}, limiter {}): {detail}", s.hostile, s.stall, s.proxy, s.limiter),
+                text: if s.churn > 0 { format!("a well-behaved client was not served within {BOUND:?} after {} short-lived connections of kind '{}' had come and gone (proxy protocol {}, limiter {}): {detail}", s.churn, s.stall, s.proxy, s.limiter) } else { format!("a well-behaved client was not served within {BOUND:?} while {} hostile client(s) stalled at '{}' (proxy protocol {}, limiter {}): {detail}", s.hostile, s.stall, s.proxy, s.limiter) },
                 replay: json!({"spec": s}),
                 weight: (s.hostile * 10 + s.limiter as usize) as u64,
             });
@@ -227,7 +306,7 @@ pub fn run(cli: Cli) -> ! {
     rep.set("slowest_served_ms", json!(max_ms.load(Ordering::Relaxed)));
     rep.set("bound_ms", json!(BOUND.as_millis() as u64));
     rep.set("exhaustive", json!(true));
-    rep.set("rule", json!("every stall point (silent after connect, 1 byte / half of the PROXY header, fewer bytes than any header, header complete, mid-frame, after handshake, after login start, after the encryption request, in configuration never echoing, slow garbage) x PROXY protocol on/off x limiter on/off x 1, 2, 9 (thorough: 40) hostile clients; crowds of 600 (thorough: 300, 1100, 3000) connections held open at four cheap stall points; the well-behaved client has another effective address; each schedule is distinct"));
+    rep.set("rule", json!("every stall point (silent after connect, 1 byte / half of the PROXY header, fewer bytes than any header, header complete, mid-frame, after handshake, after login start, after the encryption request, in configuration never echoing, slow garbage) x PROXY protocol on/off x limiter on/off x 1, 2, 9 (thorough: 40) hostile clients; crowds of 600 (thorough: 300, 1100, 3000) connections held open at four cheap stall points; 1500 (thorough: 5000) short-lived connections one after the other that end on each early exit (no PROXY header, refused by the limiter, hung up at once) or are served, before the well-behaved client comes; the well-behaved client has another effective address; each schedule is distinct"));
     rep.sample(json!({"spec": specs[0]}));
     rep.sample(json!({"spec": specs[specs.len() - 1]}));
     rep.assume("real time on loopback: 'never' is a 2 s deadline where the correct behaviour takes a few milliseconds; OS scheduling of the sockets is not controlled");
